@@ -225,7 +225,7 @@ fn run_s2pdu(seed: u64) -> Result<u64, Fail> {
     }
     if outs[0] != outs[1] {
         let k = outs[0].iter().zip(outs[1].iter()).position(|(a, b)| a != b).unwrap_or(outs[0].len().min(outs[1].len()));
-        return Err(fail(t, "C08", "pdus-independent-of-chunking", format!("tail {tail} max_size {max_size}: {} PDUs one-shot, {} drip-fed; first difference at PDU {k}: lengths {:?} vs {:?}", outs[0].len(), outs[1].len(), outs[0].get(k).map(|p| p.len()), outs[1].get(k).map(|p| p.len())), seed));
+        return Err(fail(t, "C08+C10", "pdus-independent-of-chunking", format!("tail {tail} max_size {max_size}: {} PDUs one-shot, {} drip-fed; first difference at PDU {k}: lengths {:?} vs {:?}", outs[0].len(), outs[1].len(), outs[0].get(k).map(|p| p.len()), outs[1].get(k).map(|p| p.len())), seed));
     }
     Ok(works)
 }
@@ -379,6 +379,213 @@ fn run_il2p(seed: u64) -> Result<u64, Fail> {
     Ok(works)
 }
 
+// ------------------------------------------------------------------------------------------------ audec
+/// AuDecode: every data offset 0..=40 and a few large ones, wrong magic / encoding / rate / channels, then PCM payload in
+/// random pieces (odd sizes included): never a panic; either an error value or exactly one sample per two payload bytes.
+fn run_audec(seed: u64) -> Result<u64, Fail> {
+    let t = "audec";
+    let mut rng = Rng(seed * 982451653 + 3);
+    let npay = 601; // odd: the last byte must never be decoded
+    let payload: Vec<u8> = (0..npay).map(|_| (rng.next() & 0xff) as u8).collect();
+    let mut offsets: Vec<u32> = (0..=40).collect();
+    offsets.extend([0xffff_ffffu32, 5_000_000, 4_096_000, 4_096_008, 4_096_009]);
+    let mut works = 0;
+    for &off in &offsets {
+        for mutate in 0..5 {
+            let mut hdr: Vec<u8> = vec![];
+            hdr.extend((if mutate == 1 { 0x2e736e65u32 } else { 0x2e736e64u32 }).to_be_bytes());
+            hdr.extend(off.to_be_bytes());
+            hdr.extend(0xffff_ffffu32.to_be_bytes());
+            hdr.extend((if mutate == 2 { 2u32 } else { 3u32 }).to_be_bytes());
+            hdr.extend((if mutate == 3 { 44100u32 } else { 8000u32 }).to_be_bytes());
+            hdr.extend((if mutate == 4 { 2u32 } else { 1u32 }).to_be_bytes());
+            // annotation up to the data offset (bounded: absurd offsets are not materialised)
+            let ann = if off >= 24 && off <= 64 { (off - 24) as usize } else { 4 };
+            hdr.extend(std::iter::repeat(0u8).take(ann));
+            let mut data = hdr.clone();
+            data.extend(&payload);
+            let well_formed = mutate == 0 && off >= 24 && off <= 64;
+            let (w, r) = new_stream::<u8>();
+            let (mut b, o) = AuDecode::new(r, 8000);
+            let mut got: Vec<Float> = vec![];
+            let mut pos = 0;
+            let mut idle = 0;
+            let mut errored = false;
+            let mut rounds = 0;
+            while idle < 3 && !errored && rounds < 4000 {
+                rounds += 1;
+                let fed = feed(&w, &data, &mut pos, rng.pick(&[0, 1, 1, 2, 3, 5, 31, 64, 1000]), &no_tags);
+                let v = work(t, seed, &mut b).map_err(|mut f| { f.what = format!("work() panicked: data offset {off}, header mutation {mutate}, {pos} bytes fed"); f })?;
+                works += 1;
+                errored = v == 4;
+                let d = drain(&o, rng.pick(&[0, 1, 7, 1000]), &mut got);
+                idle = if pos == data.len() && fed == 0 && d == 0 && v != 0 { idle + 1 } else { 0 };
+            }
+            drain(&o, usize::MAX, &mut got);
+            if well_formed {
+                let want: Vec<Float> = payload.chunks_exact(2).map(|c| i16::from_be_bytes([c[0], c[1]]) as Float / 32767.0).collect();
+                let same = got.len() == want.len() && got.iter().zip(want.iter()).all(|(a, b)| a.to_bits() == b.to_bits());
+                if errored || !same {
+                    let k = got.iter().zip(want.iter()).position(|(a, b)| a.to_bits() != b.to_bits());
+                    return Err(fail(t, "C14", "one-sample-per-two-payload-bytes", format!("well-formed header with data offset {off}: error={errored}, {} samples decoded, {} specified, first difference at {:?}", got.len(), want.len(), k), seed));
+                }
+            } else if !got.is_empty() && mutate != 0 {
+                return Err(fail(t, "C15", "malformed-header-is-an-error", format!("header mutation {mutate}, data offset {off}: {} samples were decoded", got.len()), seed));
+            }
+        }
+    }
+    Ok(works)
+}
+
+// ------------------------------------------------------------------------------------------------ sigmf
+fn tar_header(name: &str, size: usize) -> Vec<u8> {
+    let mut h = vec![0u8; 512];
+    h[..name.len()].copy_from_slice(name.as_bytes());
+    h[100..108].copy_from_slice(b"0000644\0");
+    h[108..116].copy_from_slice(b"0000000\0");
+    h[116..124].copy_from_slice(b"0000000\0");
+    h[124..136].copy_from_slice(format!("{:011o}\0", size).as_bytes());
+    h[136..148].copy_from_slice(b"00000000000\0");
+    h[156] = b'0';
+    h[257..263].copy_from_slice(b"ustar\0");
+    h[263..265].copy_from_slice(b"00");
+    for b in &mut h[148..156] { *b = b' '; }
+    let sum: u32 = h.iter().map(|b| *b as u32).sum();
+    h[148..156].copy_from_slice(format!("{:06o}\0 ", sum).as_bytes());
+    h
+}
+fn tar_member(out: &mut Vec<u8>, name: &str, data: &[u8]) {
+    out.extend(tar_header(name, data.len()));
+    out.extend(data);
+    out.extend(std::iter::repeat(0u8).take((512 - data.len() % 512) % 512));
+}
+/// SigMFSource from a recording (two files) and from an archive (data member not first), repeat 0..3, data of 0 / few /
+/// more-than-one-stream-full samples, consumer schedules that leave the output nearly full: exactly repeat x data, then EOF.
+fn run_sigmf(seed: u64) -> Result<u64, Fail> {
+    use rustradio::sigmf::SigMFSourceBuilder;
+    let t = "sigmf";
+    let mut rng = Rng(seed * 6700417 + 1);
+    let dir = std::env::temp_dir().join(format!("verif_bx_sigmf_{}_{}", std::process::id(), seed));
+    let _ = std::fs::remove_dir_all(&dir);
+    std::fs::create_dir_all(&dir).unwrap();
+    let mut works = 0;
+    let mut res: Result<(), Fail> = Ok(());
+    'outer: for archive in [false, true] {
+        for nsamp in [0usize, 1, 777, 1_030_000] {
+            for repeat in 0..=3u64 {
+                if nsamp > 100_000 && repeat > 2 { continue; }
+                let samples: Vec<Float> = (0..nsamp).map(|i| i as Float * 0.5 - 3.0).collect();
+                let mut bytes: Vec<u8> = samples.iter().flat_map(|v| v.to_le_bytes()).collect();
+                // half of the recordings were cut short in the middle of a sample: the partial sample is not data
+                if (nsamp + repeat as usize + archive as usize) % 2 == 1 {
+                    bytes.extend([0xAAu8, 0xBB]);
+                }
+                let meta = r#"{"global":{"core:version":"1.1.0","core:datatype":"rf32_le","core:sample_rate":48000.0},"captures":[{"core:sample_start":0}],"annotations":[]}"#;
+                let base = dir.join(format!("r_{}_{}_{}.sigmf", archive as u8, nsamp, repeat));
+                if archive {
+                    let mut tar: Vec<u8> = vec![];
+                    tar_member(&mut tar, "unrelated.txt", b"hello, this member comes first");
+                    tar_member(&mut tar, "rec.sigmf-data", &bytes);
+                    tar_member(&mut tar, "rec.sigmf-meta", meta.as_bytes());
+                    tar.extend(vec![0u8; 1024]);
+                    std::fs::write(&base, &tar).unwrap();
+                } else {
+                    std::fs::write(dir.join(format!("r_{}_{}_{}.sigmf-meta", archive as u8, nsamp, repeat)), meta).unwrap();
+                    std::fs::write(dir.join(format!("r_{}_{}_{}.sigmf-data", archive as u8, nsamp, repeat)), &bytes).unwrap();
+                }
+                let built = SigMFSourceBuilder::<Float>::new(base.clone()).repeat(rustradio::Repeat::finite(repeat)).build();
+                let (mut b, o) = match built {
+                    Ok(x) => x,
+                    Err(e) => { res = Err(fail(t, "C14", "recording-opens", format!("archive={archive} samples={nsamp}: {e}"), seed)); break 'outer; }
+                };
+                let desc = format!("archive={archive} samples={nsamp} repeat={repeat}");
+                let mut got: Vec<Float> = vec![];
+                let mut eof = false;
+                let style = rng.below(3);
+                for _ in 0..20000 {
+                    let v = match work(t, seed, &mut b) { Ok(v) => v, Err(mut f) => { f.what = format!("work() panicked: {desc}"); res = Err(f); break 'outer; } };
+                    works += 1;
+                    if v == 4 { res = Err(fail(t, "C15", "error-only-for-bad-files", format!("{desc}: work() returned Err on a well-formed recording"), seed)); break 'outer; }
+                    // leave the output nearly full most of the time
+                    let j = match style { 0 => usize::MAX, 1 => rng.pick(&[100, 5000, 1, 64]), _ => rng.pick(&[0, 0, 300_000]) };
+                    drain(&o, j, &mut got);
+                    if v == 2 { eof = true; break; }
+                }
+                drain(&o, usize::MAX, &mut got);
+                let want_len = nsamp * repeat as usize;
+                let ok = eof && got.len() == want_len && got.iter().enumerate().all(|(i, v)| v.to_bits() == samples[i % nsamp.max(1)].to_bits());
+                if !ok {
+                    let k = got.iter().enumerate().position(|(i, v)| nsamp == 0 || v.to_bits() != samples[i % nsamp].to_bits());
+                    res = Err(fail(t, "C14+C16", "data-exactly-repeat-times-then-eof", format!("{desc}: eof={eof}, {} samples emitted, {} specified, first wrong sample at {:?}", got.len(), want_len, k), seed));
+                    break 'outer;
+                }
+            }
+        }
+    }
+    let _ = std::fs::remove_dir_all(&dir);
+    res.map(|_| works)
+}
+
+// ------------------------------------------------------------------------------------------------ stream
+/// The stream API itself (src/stream.rs on top of the ring): samples and ALL tags written come back exactly once, in
+/// order -- several tags on one sample, equal keys, equal key and value included -- across several laps of the ring.
+fn run_stream(seed: u64) -> Result<u64, Fail> {
+    let t = "stream";
+    let mut rng = Rng(seed * 49979687 + 13);
+    let (w, r) = new_stream::<u32>();
+    let mut next = 0u32;
+    let mut want_tags: Vec<(u64, String, String)> = vec![];
+    let mut got_tags: Vec<(u64, String, String)> = vec![];
+    let mut got: u64 = 0;
+    let mut ops = 0;
+    for _ in 0..60 {
+        // write a chunk with tags
+        {
+            let mut wb = w.write_buf().unwrap();
+            let n = rng.pick(&[0, 1, 5, 1000, 300_000, 700_000]).min(wb.len());
+            let mut tags = vec![];
+            for i in 0..n {
+                wb.slice()[i] = next + i as u32;
+                let abs = next as u64 + i as u64;
+                if abs % 50_021 < 3 || (i < 4 && rng.below(2) == 0) {
+                    for k in 0..1 + rng.below(3) {
+                        let (key, val) = match rng.below(3) { 0 => ("a", TagValue::U64(7)), 1 => ("a", TagValue::U64(k as u64)), _ => ("b", TagValue::Bool(true)) };
+                        tags.push(Tag::new(i, key, val.clone()));
+                        want_tags.push((abs, key.to_string(), format!("{val:?}")));
+                    }
+                }
+            }
+            wb.produce(n, &tags);
+            next += n as u32;
+        }
+        // read some
+        {
+            let (rb, tags) = r.read_buf().unwrap();
+            let m = rng.pick(&[0, 1, 3, 999, 250_000, usize::MAX]).min(rb.len());
+            for (i, v) in rb.slice()[..m].iter().enumerate() {
+                if *v as u64 != got + i as u64 {
+                    return Err(fail(t, "C01", "samples-in-commit-order", format!("sample {} reads {}", got + i as u64, v), seed));
+                }
+            }
+            for tg in &tags {
+                if tg.pos() < m {
+                    got_tags.push((got + tg.pos() as u64, tg.key().to_string(), format!("{:?}", tg.val())));
+                }
+            }
+            rb.consume(m);
+            got += m as u64;
+        }
+        ops += 2;
+    }
+    let upto = got;
+    let want: Vec<_> = want_tags.into_iter().filter(|t| t.0 < upto).collect();
+    if got_tags != want {
+        let k = got_tags.iter().zip(want.iter()).position(|(a, b)| a != b).unwrap_or(got_tags.len().min(want.len()));
+        return Err(fail(t, "C02", "every-tag-exactly-once-in-order", format!("{} tags read back for {} written on the first {upto} samples; first difference at #{k}: {:?} vs {:?}", got_tags.len(), want.len(), got_tags.get(k), want.get(k)), seed));
+    }
+    Ok(ops)
+}
+
 // ------------------------------------------------------------------------------------------------ wpcr
 fn run_wpcr(seed: u64) -> Result<u64, Fail> {
     use rustradio::stream::new_nocopy_stream;
@@ -435,7 +642,7 @@ fn bx_io() {
             }
         }
     }));
-    let targets = std::env::var("BX_TARGETS").unwrap_or_else(|_| "rtlsdr,fsink,s2pdu,auenc,tcp,wpcr,il2p".into());
+    let targets = std::env::var("BX_TARGETS").unwrap_or_else(|_| "rtlsdr,fsink,s2pdu,auenc,audec,sigmf,tcp,wpcr,il2p,stream".into());
     let n: u64 = std::env::var("BX_N").ok().and_then(|s| s.parse().ok()).unwrap_or(40);
     let base: u64 = std::env::var("VERIF_SEED").ok().and_then(|s| s.parse().ok()).unwrap_or(1);
     let mut failed = false;
@@ -453,6 +660,9 @@ fn bx_io() {
                 "tcp" => run_tcp(seed),
                 "wpcr" => { if i > 0 { break; } run_wpcr(seed) }
                 "il2p" => run_il2p(seed),
+                "stream" => run_stream(seed),
+                "audec" => { if i > 1 { break; } run_audec(seed) }
+                "sigmf" => { if i > 1 { break; } run_sigmf(seed) }
                 _ => Ok(0),
             };
             runs += 1;
